@@ -1,0 +1,36 @@
+//go:build verif
+
+package geom
+
+// Contracts for ExactEquals (C18): the coordinate kernel is bit-precise IEEE.
+
+//@ prop C18
+
+//@ pred CoordFin(a) = finite(a.X) && finite(a.Y) && (HasZ(a.Type) ==> finite(a.Z)) && (HasM(a.Type) ==> finite(a.M)) && a.Type < 4
+//@ pred CoordsSame(a, b) = a.Type == b.Type && a.X == b.X && a.Y == b.Y && (HasZ(a.Type) ==> a.Z == b.Z) && (HasM(a.Type) ==> a.M == b.M)
+
+//@ func exactEqualsComparator.eq
+//@   timeout 120
+//@   requires CoordFin(a) && CoordFin(b) && c.toleranceSq >= 0
+//@   ensures c.toleranceSq == 0 ==> (result <==> CoordsSame(a, b))
+//@   ensures result ==> a.Type == b.Type && (HasZ(a.Type) ==> a.Z == b.Z) && (HasM(a.Type) ==> a.M == b.M)
+//@   ensures CoordsSame(a, b) ==> result
+
+//@ lemma eq_reflexive: forall c: exactEqualsComparator, a: Coordinates :: CoordFin(a) && c.toleranceSq >= 0 ==> c.eq(a, a)
+
+//@ func exactEqualsComparator.pointsEq
+//@   requires c.toleranceSq >= 0 && (p1.full ==> CoordFin(p1.coords)) && (p2.full ==> CoordFin(p2.coords)) && p1.coords.Type < 4 && p2.coords.Type < 4
+//@   ensures !p1.full && !p2.full ==> (result <==> p1.coords.Type == p2.coords.Type)
+//@   ensures p1.full != p2.full ==> !result
+//@   ensures p1.full && p2.full && c.toleranceSq == 0 ==> (result <==> CoordsSame(p1.coords, p2.coords))
+
+//@ func exactEqualsComparator.structureEq
+//@   ghost calls: Int, allEq: Bool
+//@   requires n >= 0 && calls == 0 && allEq && eq != nil && !c.ignoreOrder
+//@   oncall eq requires arg0 == calls && arg1 == calls && allEq && calls < n
+//@   oncall eq ensures calls == old(calls) + 1 && (allEq <==> (old(allEq) && result))
+//@   ensures result <==> (allEq && calls == n)
+//@   loop 0 invariant 0 <= i && i <= n && calls == i && allEq
+
+//@ func validPermutation
+//@   noverify
